@@ -140,7 +140,11 @@ FOCUS = [
      "a tab inside a string literal passed as argument"),
     ("string-semicolon", ".msp430\n.macro m(a)\n .db \"x;y\", a\n.endm\n m(1)\n", ".msp430\n .db \"x;y\", 1\n",
      "a semicolon inside a string literal of a macro body"),
+    ("define-backslash", ".msp430\n.define Q '\\''\n .db Q, 1\n", ".msp430\n .db '\\'', 1\n",
+     "a backslash escape inside a literal of a .define text"),
     ("param59", None, None, "a macro with 60 parameters that uses parameter 59"),
+    ("equ-blank", ".unsp\nS equ lsr\n.def T = lsr\n or r1,r2 S 1\n or r1,r2 T 2\n", ".unsp\n or r1,r2 lsr 1\n or r1,r2 lsr 2\n",
+     "an equ value followed by a blank and another token"),
     ("empty-macro", ".msp430\n.macro e\n.endm\n .db 1\n e\n .db 2\n", ".msp430\n .db 1\n .db 2\n", "a macro with an empty body"),
 ]
 
